@@ -373,7 +373,7 @@ var specs = map[string]*CheckSpec{
 			{Pkg: v2Pkg, Dir: "internal/api/v2", Mod: "ledger", Fn: "ZZ_C18Args", Shapes: rangeShapes(2), Cfg: cmdCfg, Desc: harnessDesc(v2Pkg, "ZZ_C18ArgsDesc", ""), CanaryShapes: []int{0}},
 			{Pkg: v2Pkg, Dir: "internal/api/v2", Mod: "ledger", Fn: "ZZ_C18Two", Shapes: rangeShapes(2), Cfg: cmdCfg, Desc: harnessDesc(v2Pkg, "ZZ_C18TwoDesc", ""), CanaryShapes: []int{0}}},
 		Bounds: func(tier string) map[string]any {
-			return map[string]any{"elements": "1..3 through ProcessBulk; 1..2 (thorough 3) through bulkHandler with the continueOnFailure parameter absent or an arbitrary alphanumeric string of 1..4 bytes (it asks for the flag exactly when it spells true in any case, or 1)", "actions": "the four known actions and an unknown one, chosen per element", "outcomes": "success or failure per element (symbolic Bool), three error classes", "continueOnFailure": "symbolic Bool", "element_arguments": "bulks of 2..3 ADD_METADATA / DELETE_METADATA elements (accounts and transactions with arbitrary ids; metadata and key present or absent per element): each reaches the engine with its own arguments", "two_requests": "two bulks of 1..2 elements one after the other through bulkHandler, the second omitting idempotency keys the first supplied", "payloads": "concrete well-formed JSON per action (decoded by the JSON model); malformed payloads are outside this check"}
+			return map[string]any{"elements": "1..3 through ProcessBulk; 1..2 (thorough 3) through bulkHandler with the continueOnFailure parameter absent or an arbitrary alphanumeric string of 1..4 bytes (it asks for the flag exactly when it spells true in any case, or 1)", "actions": "the four known actions, an unknown one, a known action whose payload does not decode and a metadata element on an unknown target type, chosen per element", "outcomes": "success or failure per element (symbolic Bool), three error classes", "continueOnFailure": "symbolic Bool", "element_arguments": "bulks of 2..3 ADD_METADATA / DELETE_METADATA elements (accounts and transactions with arbitrary ids; metadata and key present or absent per element): each reaches the engine with its own arguments", "two_requests": "two bulks of 1..2 elements one after the other through bulkHandler, the second omitting idempotency keys the first supplied", "payloads": "concrete JSON per element kind (decoded by the JSON model)"}
 		},
 		Assumptions: []string{"backend.Ledger is a recording stub whose four write methods succeed or fail as the symbolic inputs say", "encoding/json modelled over ropes", "the HTTP request is built by the harness (body = JSON model of the Bulk value, recording ResponseWriter); chi routing is not executed"},
 		Encoded:     []string{"v2.bulkHandler", "v2.ProcessBulk", "libs/api.QueryParamBool", "ledger.(*TransactionRequest).ToRunScript", "ledger.TxToScriptData", "command.IsSaveMetaError/IsDeleteMetaError", "engine.IsCommandError", "machine.IsInsufficientFundError"},
